@@ -53,6 +53,16 @@ func genL(prop string) func(r *sim.Rng, tier string) any {
 		if r.Bool(0.07) {
 			p.Cfg.ParentSec = pick(r, []int{1, 7, 20})
 		}
+		p.Cfg.ClientChain = r.Bool(0.3)
+		if r.Bool(0.3) {
+			// another TLS client of the process trusts CAs the signer is not configured with
+			for ci := ncas; ci < 4; ci++ {
+				if len(p.Cfg.Sibling) == 0 || r.Bool(0.4) {
+					p.Cfg.Sibling = append(p.Cfg.Sibling, ci)
+				}
+			}
+			p.Cfg.SiblingFirst = r.Bool(0.5)
+		}
 		n := r.Weighted([]int{6, 25, 30, 25, 14})
 		if n == 0 && r.Bool(0.5) {
 			p.Cfg.NilList = true
@@ -70,6 +80,9 @@ func genL(prop string) func(r *sim.Rng, tier string) any {
 			}
 			if r.Bool(impostorRate) {
 				e.Identity = pick(r, []string{"other_ca", "self_signed", "expired", "just_expired", "not_yet", "wrong_name"})
+				if len(p.Cfg.Sibling) > 0 && r.Bool(0.5) {
+					e.Identity, e.CA = "sibling_ca", pick(r, p.Cfg.Sibling)
+				}
 				if r.Bool(0.25) {
 					e.Identity, e.TLS = "genuine", "1.1"
 				}
@@ -96,7 +109,18 @@ func genL(prop string) func(r *sim.Rng, tier string) any {
 		}
 		if r.Bool(0.25) {
 			p.Calls = r.Range(2, 3)
-			p.GapSec = pick(r, []int{0, 1, 30, 600})
+			p.GapSec = pick(r, []int{0, 0, 1, 30, 600})
+			for i := range p.Endpoints {
+				// an endpoint that is unreachable during the first call(s) and healthy again afterwards
+				if r.Bool(0.5) {
+					if p.Endpoints[i].Dial == "ok" && p.Endpoints[i].Identity == "genuine" && r.Bool(0.5) {
+						p.Endpoints[i].Dial = pick(r, []string{"refuse", "refuse", "stall"})
+					}
+					if p.Endpoints[i].Dial == "refuse" || p.Endpoints[i].Dial == "stall" {
+						p.Endpoints[i].Heal = r.Range(1, p.Calls-1)
+					}
+				}
+			}
 		}
 		if prop == "C17" {
 			for i := 0; i < r.Range(2, 8); i++ {
@@ -141,6 +165,16 @@ func shrinkL(raw json.RawMessage) []json.RawMessage {
 		q.Endpoints = append(append([]LEndpoint(nil), p.Endpoints[:i]...), p.Endpoints[i+1:]...)
 		emit(q)
 	}
+	if p.Cfg.ClientChain {
+		q := clone()
+		q.Cfg.ClientChain = false
+		emit(q)
+	}
+	if p.Calls > 2 {
+		q := clone()
+		q.Calls = 2
+		emit(q)
+	}
 	for i, e := range p.Endpoints {
 		if len(e.Script) > 1 {
 			q := clone()
@@ -153,6 +187,7 @@ func shrinkL(raw json.RawMessage) []json.RawMessage {
 		if e.Dial != "ok" {
 			q := clone()
 			q.Endpoints[i].Dial = "ok"
+			q.Endpoints[i].Heal = 0
 			emit(q)
 		}
 		if e.ClientAuth != "none" {
